@@ -71,6 +71,8 @@ func authFilter(init []string, ops []string) func(hist []string) []string {
 	}
 }
 
+var c04GCA string
+
 // edgeIDs renames the device ids of an alphabet: device "1" becomes short id 0 (the zero value of every
 // id-typed variable, cache and map miss), device "3" the largest id, device "2" stays an ordinary one.
 func edgeIDs(ops []string) []string {
@@ -138,7 +140,10 @@ func init() {
 	}
 	checks["C07"] = func(tier string) int { return c07(tier) }
 	checks["C04"] = func(tier string) int {
+		// the GCA of this check has a public key that ends in a line-feed byte
 		arg := opsArg{Name: "c04", Init: []string{"reg:G1:temp", "auth:1:kA:1000:G1", "auth:2:kB:7:G1", "now:100"}, RestartCheck: true}
+		defer func() { c04GCA = "" }()
+		c04GCA = "G-NL"
 		ops := []string{
 			"rep:1:kA:now:500", "rep:1:kA:now:600", "rep:2:kB:now:5", "rep:2:kB:now:10", "rep:1:kA:now-1:neg",
 			"auth:3:kC:1000:G1", "auth:1:kX:1000:G1", "auth:2:kB:8:G1", "auth:2:kB:7:G1:resig",
@@ -148,6 +153,12 @@ func init() {
 		depth := 3
 		if tier == "thorough" {
 			depth = 5
+		}
+		for i := range arg.Init {
+			arg.Init[i] = strings.ReplaceAll(arg.Init[i], "G1", c04GCA)
+		}
+		for i := range ops {
+			ops[i] = strings.ReplaceAll(ops[i], "G1", c04GCA)
 		}
 		return runOpsCheck("C04", tier, arg, ops, depth, "BFS over histories of reports (incl. banned slots and over-capacity), authorizations (new, conflicting = ban), rotations, impact rounds, clock moves that make a restart need 0/1/3 catch-up rotations, and restarts; at every distinct state: restart (must succeed, state = model incl. catch-up rotations, archived weeks byte-identical on disk and through the API), second restart (idempotent), public observables after restart")
 	}
